@@ -696,7 +696,9 @@ def c03(ctx):
     thorough = ctx.tier == "thorough"
     http_model(ctx)
     tlc_must_fail(ctx, "Relay", "Relay_Attack_CleanCut.cfg")   # a response whose upload broke off must not look complete (Relay.UploadBreaks)
-    must = [{"declared": 2, "framing": "chunked", "body": "single-small", "status": 200, "method": "GET", "interim": "none"},
+    must = [{"declared": 9, "framing": "chunked", "body": "multi", "status": 200, "method": "GET", "interim": "none"},
+            {"declared": 9, "undeclared": 1, "framing": "chunked", "body": "single-small", "status": 200, "method": "POST", "interim": "none"},
+            {"declared": 2, "framing": "chunked", "body": "single-small", "status": 200, "method": "GET", "interim": "none"},
             {"declared": 3, "framing": "chunked", "body": "multi", "status": 200, "method": "GET", "interim": "none"},
             {"interim": "103", "status": 201, "method": "GET", "framing": "length", "body": "single-small"},
             {"interim": "103x2", "status": 200, "method": "POST", "framing": "chunked", "body": "single-small", "declared": 1},
